@@ -52,6 +52,9 @@ func MarshalBinary[T any](t TestingT, cases []CaseBinary[T]) {
 			}
 		} else {
 			if assert.NoError(t, err, failInfo) {
+				if len(b) == 0 && len(c.Data) == 0 {
+					b = c.Data // nil and empty data are the same data, assert.Equal tells them apart
+				}
 				assert.Equal(t, c.Data, b, failInfo)
 			}
 		}
